@@ -19,8 +19,18 @@ func (m *Message) SkipClassAdRaw(ctx context.Context) error {
 		return fmt.Errorf("failed to read expression count: %w", err)
 	}
 	for i := 0; i < numExprs; i++ {
-		if err := m.SkipString(ctx); err != nil {
+		isMarker, err := m.skipStringMatch(ctx, SecretMarker)
+		if err != nil {
 			return fmt.Errorf("failed to skip expression %d (expected %d): %w", i, numExprs, err)
+		}
+		// A private attribute travels as SecretMarker + a put_secret field: two wire
+		// items counted as ONE expression (see GetClassAdRawBody). Consume the secret
+		// too, under the same crypto state as the other receivers, or every later
+		// item -- and the next message on the connection -- is read off by one.
+		if isMarker {
+			if err := m.skipSecretString(ctx); err != nil {
+				return fmt.Errorf("failed to skip secret expression %d (expected %d): %w", i, numExprs, err)
+			}
 		}
 	}
 	if err := m.SkipString(ctx); err != nil {
@@ -36,26 +46,64 @@ func (m *Message) SkipClassAdRaw(ctx context.Context) error {
 // (encrypted: an int32 length prefix followed by that many bytes; plaintext: bytes
 // up to a null terminator) but allocating nothing for the value.
 func (m *Message) SkipString(ctx context.Context) error {
+	_, err := m.skipStringMatch(ctx, "")
+	return err
+}
+
+// skipSecretString discards a put_secret field (the item following a SecretMarker)
+// under the same temporary crypto state getSecretString reads it with.
+func (m *Message) skipSecretString(ctx context.Context) error {
+	if sc, ok := m.stream.(secretCrypto); ok {
+		sc.PrepareCryptoForSecret()
+		defer sc.RestoreCryptoAfterSecret()
+	}
+	return m.SkipString(ctx)
+}
+
+// skipStringMatch discards one CEDAR string exactly as SkipString does and reports
+// whether the string GetString would have returned for it equals want. An empty
+// want matches nothing (that is plain SkipString); only a string short enough to
+// equal want is ever held in memory.
+func (m *Message) skipStringMatch(ctx context.Context, want string) (bool, error) {
 	if m.stream.IsEncrypted() {
 		length, err := m.GetInt32(ctx)
 		if err != nil {
-			return err
+			return false, err
 		}
-		return m.discard(ctx, int(length))
+		if want == "" || length <= 0 || int(length) > len(want)+1 {
+			return false, m.discard(ctx, int(length))
+		}
+		data, err := m.GetBytes(ctx, int(length))
+		if err != nil {
+			return false, err
+		}
+		// Same normalisation as GetString: the NULL-string marker, then one
+		// trailing terminator.
+		if data[0] == BinNullChar {
+			return false, nil // the NULL string reads as "", never equal to a non-empty want
+		}
+		if data[len(data)-1] == 0 {
+			data = data[:len(data)-1]
+		}
+		return string(data) == want, nil
 	}
-	for {
+	matched := want != ""
+	for n := 0; ; n++ {
 		if err := m.ensureData(ctx, 1); err != nil {
 			if err == io.EOF {
-				return nil // end of message: treat as terminated
+				return matched && n == len(want), nil // end of message: treat as terminated
 			}
-			return err
+			return false, err
 		}
 		b, err := m.buffer.ReadByte()
 		if err != nil {
-			return err
+			return false, err
 		}
 		if b == 0 {
-			return nil // null terminator
+			return matched && n == len(want), nil // null terminator
+		}
+		if n >= len(want) || want[n] != b {
+			matched = false
 		}
 	}
 }
